@@ -136,11 +136,17 @@ def invoke(tool, form, sb, style, outarg, unknown=False):
     field = "nope" if unknown else "f1"
     with common.chdir(cwd):
         if tool == "colander":
+            # half of the path styles: every field kept, only levels strained out (the README example) -
+            # the one selection for which copying or linking whole input files would be possible
+            keep_all = "slash" in style or style.endswith("else")
             if form == "api":
                 from amr_kitchen.colander import Colander
-                Colander(plotfile=arg, output=outarg, variables=["f2", "f0"]).strain()
+                if keep_all:
+                    Colander(plotfile=arg, output=outarg, variables=["all"], limit_level=0).strain()
+                else:
+                    Colander(plotfile=arg, output=outarg, variables=["f2", "f0"]).strain()
             else:
-                with common.argv(["colander", arg, "-v", "f2", "f0", "-o", outarg]):
+                with common.argv(["colander", arg, "-v"] + (["all", "-l", "0"] if keep_all else ["f2", "f0"]) + ["-o", outarg]):
                     common.repo_module("amr_kitchen.colander.cli").main()
         elif tool == "combine_byfile":
             from amr_kitchen import PlotfileCooker
